@@ -48,3 +48,104 @@ impl AdjacencyMap {
         }
     @*/
 }
+
+// ---- C02 indegree: the number of vertices a with (a, v) in A ----
+
+impl AdjacencyMap {
+    /// the in-neighbours of v (as keys) and the indegree defined from (V, A)
+    spec fn in_keys(&self, v: int) -> Set<usize> { self.arcs@.dom().filter(|k: usize| self.has(k as int, v)) }
+    spec fn indeg(&self, v: int) -> nat { self.in_keys(v).len() }
+}
+
+/// faithfulness of `in_keys`: exactly the in-neighbours
+proof fn lemma_mm_in_keys(g: AdjacencyMap, v: int)
+    ensures
+        forall|a: int| #[trigger] g.has(a, v) == (0 <= a <= usize::MAX && g.in_keys(v).contains(a as usize)),
+        g.indeg(v) <= g.ord(),
+{
+    lemma_len_subset(g.in_keys(v), g.arcs@.dom());
+}
+
+/// the in-neighbours of v among the first n keys of ks
+spec fn mm_in_keys_upto(g: AdjacencyMap, v: int, ks: Seq<usize>, n: int) -> Set<usize> {
+    ks.take(n).to_set().filter(|k: usize| g.has(k as int, v))
+}
+
+/// trigger tag: names the triple (g, v, ks) for `lemma_mm_filter_count`
+spec fn mm_tag(g: AdjacencyMap, v: int, ks: Seq<usize>) -> bool { true }
+
+/// vstd's model of `Filter`: the items are `filter_index` of a prefix of the source; over the rows listed in the key order ks
+/// with a predicate that decides `has(ks[.], v)` there are as many items as in-neighbours among the first n keys.
+/// Broadcast because the filter iterator is consumed in the tail expression and cannot be named in a hint.
+broadcast proof fn lemma_mm_filter_count<T>(g: AdjacencyMap, v: int, ks: Seq<usize>, s: Seq<T>, n: int, pred: spec_fn(int) -> bool)
+    requires
+        ks.no_duplicates(),
+        0 <= n <= ks.len(),
+        n <= s.len(),
+        forall|j: int| 0 <= j < n ==> pred(j) == g.has(ks[j] as int, v),
+    ensures
+        #![trigger s.take(n).filter_index(pred), mm_tag(g, v, ks)]
+        s.take(n).filter_index(pred).len() == mm_in_keys_upto(g, v, ks, n).len(),
+    decreases n
+{
+    if n > 0 {
+        lemma_mm_filter_count(g, v, ks, s, n - 1, pred);
+        assert(s.take(n).drop_last() =~= s.take(n - 1));
+        reveal_with_fuel(Seq::filter_index, 2);
+        let prev = ks.take(n - 1).to_set();
+        let x = ks[n - 1];
+        assert(ks.take(n) =~= ks.take(n - 1).push(x));
+        let t = ks.take(n);
+        let t1 = ks.take(n - 1);
+        assert(t.to_set() =~= prev.insert(x)) by {
+            assert forall|y: usize| t.to_set().contains(y) == prev.insert(x).contains(y) by {
+                if t.to_set().contains(y) {
+                    let i = choose|i: int| 0 <= i < t.len() && t[i] == y;
+                    if i < n - 1 { assert(t1[i] == y); }
+                }
+                if prev.contains(y) {
+                    let i = choose|i: int| 0 <= i < t1.len() && t1[i] == y;
+                    assert(t[i] == y);
+                }
+                if y == x { assert(t[n - 1] == y); }
+            }
+        }
+        assert(!prev.contains(x)) by {
+            if prev.contains(x) {
+                let i = choose|i: int| 0 <= i < t1.len() && t1[i] == x;
+                assert(ks[i] == ks[n - 1]);
+            }
+        }
+        let p = mm_in_keys_upto(g, v, ks, n - 1);
+        if g.has(x as int, v) { assert(mm_in_keys_upto(g, v, ks, n) =~= p.insert(x)); } else { assert(mm_in_keys_upto(g, v, ks, n) =~= p); }
+    } else {
+        assert(ks.take(0).to_set() =~= Set::<usize>::empty());
+        assert(mm_in_keys_upto(g, v, ks, 0) =~= Set::<usize>::empty());
+    }
+}
+
+impl AdjacencyMap {
+    /*@fn impl=AdjacencyMap trait=Indegree name=indegree wrap=count props=C02,C13
+    ensures
+        self.verts().contains(v as int),
+        r == self.indeg(v as int),
+    @closure 1 |set: &&BTreeSet<usize>| -> (b: bool)
+    ensures
+        b == set@.contains(v),
+    @fn_start
+        broadcast use vstd::std_specs::iter::group_iter_axioms;
+        broadcast use lemma_map_verts_contains;
+        broadcast use lemma_mm_filter_count;
+        proof {
+            let dom = self.arcs@.dom();
+            // `values()` lists the rows in the order of an (existentially given) duplicate-free key listing ks
+            assert forall|ks: Seq<usize>| #![trigger ks.no_duplicates()] mm_tag(*self, v as int, ks) by {}
+            assert forall|ks: Seq<usize>| #![trigger mm_tag(*self, v as int, ks)] ks.to_set() == dom implies
+                mm_in_keys_upto(*self, v as int, ks, ks.len() as int) == self.in_keys(v as int)
+                && (forall|j: int| 0 <= j < ks.len() ==> self.arcs@.contains_key(#[trigger] ks[j])) by {
+                assert(ks.take(ks.len() as int) =~= ks);
+                assert forall|j: int| 0 <= j < ks.len() implies self.arcs@.contains_key(#[trigger] ks[j]) by { assert(ks.to_set().contains(ks[j])); }
+            }
+        }
+    @*/
+}
